@@ -4,11 +4,28 @@
      (class transfer transcribed from the C code) and of the counter-bounded loops (k-means, Nelder-Mead, leave-one-out).  Liveness
      `Terminates` under FairSpec and invariant `BeyondRankZero` hold for Guarded = TRUE; for Guarded = FALSE (the pinned tree) TLC returns
      the lasso Start(Zero) -> IterNull* for each of the three sites, and the NaN block variance of CPCA on a constant block.
+     NipalsMT.tla (kernel layer): the transfer function assumes that matrix*vector products drop non-finite terms; that is a property of TWO
+     kernels (serial / multi-thread worker) and the processor count decides which one a fit reaches.  With both filters the result is
+     independent of nproc in {1,2,3,16} ({1,2,3,5,16,24} thorough); with the worker's filter removed the model still holds at nproc = 1 and
+     TLC refutes BeyondRankZero at nproc = 2 (CPCA, constant block: 0/0 block loading -> NaN block score -> null component within the rank).
+     Second layer there: a PLS latent variable beyond the rank, built on rounding residue, may alternate between t and -t (no pass contracts);
+     without a ceiling on the passes (Capped = FALSE) TLC returns the lasso through MCycle, with it Terminates holds.
 (GEN) NipalsGen.tla: every matrix <= 3x3 over {-1,0,1} (quick: all <= 4 cells + a deterministic sample), dyadic perturbations, every
-     two-valued / constant response, each with its exact rank (ExactRank.tla, rational Gauss elimination) computed by TLC.
-(C)  c18_drv runs each case in a child process with hook H4 and an iteration budget; TLC validates the recorded Start/Iter/Null/Done events
-     against TraceNipals.tla (Guarded model).  Diverge / Hang match no action -> violation with the input as replay.
+     two-valued / constant response, each with its exact rank (ExactRank.tla, rational Gauss elimination) computed by TLC; larger shapes
+     (tall / wide / rows around 4, 8, 16, 32, 64 +- 1) as low-rank integer products with duplicated or pairwise distinct rows, exact rank through
+     the row differences; flags for duplicate rows / columns / constant columns decided by TLC on the exact data.
+(VAR) per stratum (site, kind, shape, degeneracy flags) the same input is run again as: forced processor count 2 / 3 / 16 (5 / 24) through hook H2
+     (PCA, PLS, CPCA; `nthreads` of KMeans and LeaveOneOut), whole input times 2^+-20, columns on offsets 2^20..2^30 (2^36), cells / responses divided
+     by 3, 10, 1000 (non-representable constants), after two other fits of the same routine in the same process, response block [y, constant].
+     Class tags K1..K8 of INPUT-CLASSES.md are counted per executed case (coverage.classes).
+(C)  c18_drv runs each case in a child process with hooks H2 / H4 / H6 and an iteration budget; TLC validates the recorded Start/Iter/Null/Warm/Done/
+     Returned events against TraceNipals.tla (Guarded model, both kernels filtering).  Diverge / Hang match no action -> violation with the input as
+     replay.  The verdict on every returned component (pos / zero / nan) is taken by TLC from the logged explained variance with thresholds that are
+     functions of the logged offset, scale and row count; k-means iterations (H6) and Nelder-Mead evaluations are checked against caps defined in the spec.
 (V)  the variant the code implements (guarded or not) is read off the recorded iteration classes and reported next to the model verdicts.
+(X)  outside the statement (EXTRA-FINDING, never a verdict): PCAScorePredictor / PLSScorePredictor / CPCAScorePredictor applied to the training data
+     of the first fitted model of every (site, kind, variant): shape, finiteness in every component, agreement with the model's own scores over the
+     defined components (action TPred of TraceNipals.tla, validated in a trace of its own); a response block constant at a non-representable value.
 """
 import json, os, shutil
 from concurrent.futures import ThreadPoolExecutor
@@ -19,25 +36,47 @@ from vf.core import InfraError
 LEVEL = "model_checking"
 READY = True
 TECHNIQUE = ("TLC liveness model checking of Nipals.tla (termination of the NIPALS while(1) loops over an abstract numeric domain, guarded vs "
-             "unguarded variant) + TLC-enumerated degenerate inputs with exact rank (NipalsGen/ExactRank) run through the real PCA/PLS/CPCA/"
-             "MLR-LOO/k-means/Nelder-Mead under hook H4 with an iteration budget + TLC trace validation of the recorded iteration events and "
-             "returned models against the guarded model (TraceNipals.tla)")
-LEVEL_TEXT = ("Termination and zero-variance-beyond-rank are model-checked (liveness under weak fairness) for every rank 0..3(4), component request "
-              "1..5(6) and every site; the real library is then driven through every TLC-enumerated degenerate input of the tier (all matrices up to "
-              "3x3 over {-1,0,1} in the thorough tier) and every recorded execution is accepted or rejected by TLC against the guarded model.")
-LEVEL_NOTE = ("Trusts TLC, the placement of hook H4, the harness's classification of returned components (finite / variance <= 1e-9 %) and its "
-              "double-precision ledger residuals; exhaustive only within the stated small scopes; the iteration budget decides non-termination "
-              "(1e5 passes quick, 1e6 thorough, three orders above what a converging fit on <= 3x3 data needs).")
+             "unguarded variant) and of its kernel layer NipalsMT.tla (which matrix*vector kernel a fit reaches under a forced processor count, with / without "
+             "the non-finite-product filter) + TLC-enumerated degenerate inputs with exact rank (NipalsGen/ExactRank: all small matrices, low-rank integer "
+             "products of larger shapes) run through the real PCA/PLS/CPCA/MLR-LOO/k-means/Nelder-Mead under hooks H2 (processor counts 1, 2, 3, 16), H4 "
+             "(iteration budget) and H6 (k-means iterations), each also as scaled / offset / non-representable / in-process-history variant + TLC trace validation "
+             "of the recorded iteration events and returned models against the guarded, filtered model (TraceNipals.tla; classification of every component and "
+             "all tolerances evaluated by TLC as functions of the logged offset, scale and size)")
+LEVEL_TEXT = ("Termination, zero-variance-beyond-rank and independence of the processor count are model-checked (liveness under weak fairness) for every rank "
+              "0..3(4), component request 1..5(6), processor count {1,2,3,16}({1,2,3,5,16,24}) and every site; the real library is then driven through every "
+              "TLC-enumerated degenerate input of the tier (all matrices up to 3x3 over {-1,0,1} in the thorough tier, 20 (38) larger shapes up to 33x2 (65x4, 8x8)) "
+              "and through a stratified set of variants of them (input classes K1-K8: processor counts, magnitude 2^+-20, location 2^20..2^30(36), non-representable "
+              "constants, in-process histories, duplicate rows / columns, constant columns / blocks / response columns); every recorded execution is accepted or "
+              "rejected by TLC against the guarded model.")
+LEVEL_NOTE = ("Trusts TLC, the placement of hooks H2/H4/H6, the harness's double-precision ledger residuals and its non-finite flags; exhaustive only within the stated "
+              "small scopes; the iteration budget decides non-termination (1e5 passes quick, 1e6 thorough, three orders above what a converging fit on such data needs). "
+              "nproc > 1 runs use the plain (non-sanitizer) build. Input classes left out on purpose: K9 (missing-value code) and K10 (label alphabets) - the statement "
+              "speaks of finite inputs and has no labels; per-column unit systems (K4) - the fits are equivariant under a common scale only; a matrix or block that is constant AS A WHOLE at a non-representable value (rank 0 with cells 0.1) is not "
+              "generated, and a response block constant as a whole at such a value is run but reported as EXTRA-FINDING only: the exact cancellation the quantifier asks "
+              "for is gone and explained variance would be judged against the input's own rounding residue; magnitude / location / non-representable variants run on "
+              "centred data only (scaling 0): autoscaling has absolute zero-scale thresholds that belong to C10; fits into an already used model object are not "
+              "driven (PCA/PLS/CPCA append to their outputs by design: K7 is covered as other fits first in the same process).")
 
-PAR = int(os.environ.get("VERIF_PAR", "12"))
+PAR = int(os.environ.get("VERIF_PAR") or os.environ.get("VERIF_WORKERS") or "12")
 UNGUARDED = ["PCA", "PLS", "CPCA"]
 
 
 # ---------------------------------------------------------------- (M)
 def model_check(ctx):
-    cfg = "MC_Nipals_quick.cfg" if ctx.quick else "MC_Nipals_thorough.cfg"
-    r = tlclive.run_live("Nipals", cfg, workers=4, timeout=900)
-    ctx.add_tlc(r, "mc_nipals_guarded")
+    q = ctx.quick
+    jobs = [("Nipals", "MC_Nipals_quick.cfg" if q else "MC_Nipals_thorough.cfg", "mc_nipals_guarded", 4)]
+    jobs += [("Nipals", "MC_Nipals_unguarded_%s.cfg" % s, "mc_nipals_unguarded_%s" % s, 2) for s in UNGUARDED]
+    jobs += [("Nipals", "MC_Nipals_unguarded_var.cfg", "mc_nipals_unguarded_var", 2), ("Nipals", "MC_Nipals_unguarded_counters.cfg", "mc_nipals_counters", 2),
+             ("NipalsMT", "MC_NipalsMT_quick.cfg" if q else "MC_NipalsMT_thorough.cfg", "mc_nipalsmt_filtered", 2),
+             ("NipalsMT", "MC_NipalsMT_blind.cfg", "mc_nipalsmt_blind_nproc1", 2), ("NipalsMT", "MC_NipalsMT_nofilter.cfg", "mc_nipalsmt_nofilter", 2),
+             ("NipalsMT", "MC_NipalsMT_nocap.cfg", "mc_nipalsmt_nocap", 2)]
+    with ThreadPoolExecutor(max(1, min(3, PAR // 2))) as ex:
+        res = list(ex.map(lambda j: tlclive.run_live(j[0], j[1], workers=j[3], timeout=900), jobs))
+    R = {}
+    for j, r in zip(jobs, res):
+        ctx.add_tlc(r, j[2])
+        R[j[2]] = r
+    r = R["mc_nipals_guarded"]
     if not r.ok:
         raise InfraError("Nipals.tla (Guarded = TRUE): %s fails in the model itself:\n%s" % (r.violation, r.trace_text[:1500]))
     z = r.zero_actions(ignore=("IterNull",))          # IterNull is the unguarded pass: disabled by construction when Guarded
@@ -46,28 +85,52 @@ def model_check(ctx):
     ctx.note("model (Guarded): Terminates, CounterVariant, BeyondRankZero hold; %d distinct states" % r.distinct)
     lassos = {}
     for s in UNGUARDED:
-        r = tlclive.run_live("Nipals", "MC_Nipals_unguarded_%s.cfg" % s, workers=2, timeout=600)
-        ctx.add_tlc(r, "mc_nipals_unguarded_%s" % s)
+        r = R["mc_nipals_unguarded_%s" % s]
         if r.ok or not str(r.violation).startswith("temporal"):
             raise InfraError("Nipals.tla (Guarded = FALSE, %s): expected the non-termination lasso, got %s" % (s, r.violation))
         path = ["%s%s" % (a, "(%s)" % arg if arg else "") for a, arg, _ in r.lasso]
         lassos[s] = dict(path=path, back_to=r.back_to, distinct=r.distinct, wall_s=round(r.wall, 2))
         ctx.note("model (unguarded %s): Terminates violated, lasso %s, back to state %s" % (s, " -> ".join(path), r.back_to))
-    r = tlclive.run_live("Nipals", "MC_Nipals_unguarded_var.cfg", workers=2, timeout=600)
-    ctx.add_tlc(r, "mc_nipals_unguarded_var")
+    r = R["mc_nipals_unguarded_var"]
     if r.violation != "BeyondRankZero":
         raise InfraError("Nipals.tla (Guarded = FALSE, CPCA constant block): expected BeyondRankZero to fail, got %s" % r.violation)
-    r = tlclive.run_live("Nipals", "MC_Nipals_unguarded_counters.cfg", workers=2, timeout=600)
-    ctx.add_tlc(r, "mc_nipals_counters")
+    r = R["mc_nipals_counters"]
     if not r.ok:
         raise InfraError("Nipals.tla counter loops: %s" % r.violation)
+    # kernel layer (NipalsMT.tla): with both non-finite-product filters the result does not depend on the processor count; without the
+    # filter of the multi-thread worker the model still holds at nproc = 1 (the blind spot of a one-processor check) and fails at nproc > 1
+    r = R["mc_nipalsmt_filtered"]
+    if not r.ok:
+        raise InfraError("NipalsMT.tla (both filters): %s fails in the model itself:\n%s" % (r.violation, r.trace_text[:1500]))
+    if r.coverage.get("MRegular", (0, 0))[0] == 0 or r.coverage.get("MPoison", (1, 1))[0] != 0 or \
+            r.coverage.get("MCycle", (0, 0))[1] == 0 or r.coverage.get("MCapExit", (0, 0))[1] == 0:     # [1]: times taken (their successors are states other actions reach too)
+        raise InfraError("NipalsMT.tla (both filters, ceiling): unexpected action coverage %s" % r.coverage)
+    r = R["mc_nipalsmt_blind_nproc1"]
+    if not r.ok:
+        raise InfraError("NipalsMT.tla (FilterMT = FALSE, nproc = 1): expected to hold (the serial kernel is the one reached), got %s" % r.violation)
+    r = R["mc_nipalsmt_nofilter"]
+    if r.violation != "BeyondRankZero" or "nproc = 2" not in r.trace_text or 'tcls = "NaN"' not in r.trace_text:
+        raise InfraError("NipalsMT.tla (FilterMT = FALSE, nproc in {1, 2}): expected BeyondRankZero to fail through IterPoison at nproc = 2, got %s" % r.violation)
+    if r.coverage and r.coverage.get("MPoison", (0, 0))[0] == 0:
+        raise InfraError("NipalsMT.tla: IterPoison never taken in the refutation run (vacuous)")
+    ctx.note("model (kernel layer): result independent of nproc in %s with both filters (%d states); FilterMT = FALSE holds at nproc = 1, "
+             "refuted at nproc = 2 (CPCA, constant block: a component within the rank is stored as a null component)"
+             % ("{1,2,3,16}" if q else "{1,2,3,5,16,24}", R["mc_nipalsmt_filtered"].distinct))
+    # pass-ceiling layer: without a ceiling on the passes of one PLS latent variable a fair behaviour cycles for ever beyond the rank
+    r = R["mc_nipalsmt_nocap"]
+    if r.ok or not str(r.violation).startswith("temporal") or not any(a == "MCycle" for a, _, _ in r.lasso):
+        raise InfraError("NipalsMT.tla (Capped = FALSE): expected the non-termination lasso through MCycle, got %s / %s" % (r.violation, [a for a, _, _ in r.lasso]))
+    path = ["%s%s" % (a, "(%s)" % arg if arg else "") for a, arg, _ in r.lasso]
+    lassos["PLS-no-pass-ceiling"] = dict(path=path, back_to=r.back_to, distinct=r.distinct, wall_s=round(r.wall, 2))
+    ctx.note("model (pass-ceiling layer, Capped = FALSE): Terminates violated by PLS beyond the rank, lasso %s, back to state %s; with the ceiling it holds"
+             % (" -> ".join(path), r.back_to))
     ctx.steps["lassos"] = lassos
 
 
 # ---------------------------------------------------------------- (GEN)
 def generate(ctx):
     cfg = "MC_NipalsGen_quick.cfg" if ctx.quick else "MC_NipalsGen_thorough.cfg"
-    r = tlc.run("NipalsGen", cfg, workers=8, timeout=1500, coverage=False, xmx="8g")
+    r = tlc.run("NipalsGen", cfg, workers=min(8, PAR), timeout=1500, coverage=False, xmx="8g")
     ctx.add_tlc(r, "gen_nipals")
     if not r.ok:
         raise InfraError("NipalsGen: %s\n%s" % (r.violation, r.trace_text[:1500]))
@@ -88,8 +151,13 @@ def _flat(m):
     return [v for row in m for v in row]
 
 
-def build_cases(ctx, recs):
-    """cross the TLC-enumerated inputs with component requests / block splits; returns list of case dicts"""
+DEFAULTS = dict(nproc=1, den=1, sc=0, offl=0, yex=0, yden=1, yoffl=0, hist=0, pred=0)
+_LAST = {}            # accepted predictor blocks of the last run_cases() (for the binding self-test)
+NIPALS = ("PCA", "PLS", "CPCA")
+
+
+def _base_cases(ctx, recs):
+    """cross the TLC-enumerated inputs with component requests / block splits; returns list of case dicts (one processor, plain values)"""
     q = ctx.quick
     cases = []
     cov = {}
@@ -97,11 +165,24 @@ def build_cases(ctx, recs):
         if e["kind"] == "resp":
             cov[(json.dumps(e["cells"]), tuple(e["y"]))] = (e["cov"], e["ycst"])
 
-    def add(site, kind, e, req, npc, rank, rlo, noise, cblk=0, scaling=0, ys=None, widths=(), cells=None):
+    def add(site, kind, e, req, npc, rank, rlo, noise, cblk=0, scaling=0, ys=None, widths=(), cells=None, ycc=0):
         ys = ys or []
         cells = cells or e["cells"]
-        cases.append(dict(id=len(cases) + 1, site=site, kind=kind, scaling=scaling, npc_req=req, npc=npc, rank=rank, rlo=rlo, noise=noise, cblk=cblk,
-                          ex=e["ex"], nr=e["nr"], nc=len(cells[0]), x=_flat(cells), ny=(len(ys) // e["nr"]) if ys else 0, y=ys, widths=list(widths)))
+        c = dict(id=0, site=site, kind=kind, scaling=scaling, npc_req=req, npc=npc, rank=rank, rlo=rlo, noise=noise, cblk=cblk,
+                 ex=e["ex"], nr=e["nr"], nc=len(cells[0]), x=_flat(cells), ny=(len(ys) // e["nr"]) if ys else 0, y=ys, widths=list(widths),
+                 src=e["kind"], xrank=e["rankc"], ccany=int(any(e["cc"])), dr=e.get("dr", 0), dc=e.get("dc", 0), ycc=ycc)
+        c.update(DEFAULTS)
+        cases.append(c)
+
+    def pkind(rk, npc, cb=0):
+        return "zero" if rk == 0 else ("const-block" if cb else ("beyond-rank" if npc > rk else "within-rank"))
+
+    def lkind(e, kr, npc):
+        if e["ycst"]:
+            return "const-response"
+        if kr == 0:
+            return "no-covariance"
+        return "nlv-beyond-rank" if npc > kr else "nlv-within-rank"
 
     for idx, e in enumerate(recs):
         nr, nc, rk = e["nr"], e["nc"], e["rankc"]
@@ -114,11 +195,10 @@ def build_cases(ctx, recs):
                 reqs = [r_ for r_ in reqs if r_ != nc + 1]          # nc + 1 and nc + 2 are clamped to the same fit
             for req in reqs:
                 npc = min(req, nc)
-                kind = "zero" if rk == 0 else ("beyond-rank" if npc > rk else "within-rank")
-                add("PCA", kind, e, req, npc, rk, rk, noise)
+                add("PCA", pkind(rk, npc), e, req, npc, rk, rk, noise)
             if e["kind"] == "mat" and (not q or idx % 3 == 0):
                 npc = nc
-                add("PCA", "zero" if rk == 0 else ("beyond-rank" if npc > rk else "within-rank"), e, nc + 2, npc, rk, rk, noise, scaling=1)
+                add("PCA", pkind(rk, npc), e, nc + 2, npc, rk, rk, noise, scaling=1)
         if e["kind"] == "mat" and nc >= 2:
             splits = [(1, nc - 1)]
             if nc == 3:
@@ -132,8 +212,7 @@ def build_cases(ctx, recs):
                     c0 += wi
                 for req in [minw + 2]:
                     npc = min(req, minw)
-                    kind = "zero" if rk == 0 else ("const-block" if cb else ("beyond-rank" if npc > rk else "within-rank"))
-                    add("CPCA", kind, e, req, npc, rk, rk, noise, cblk=cb, widths=w)
+                    add("CPCA", pkind(rk, npc, cb), e, req, npc, rk, rk, noise, cblk=cb, widths=w)
         if e["kind"] == "mat" and nc >= 2 and (not q or idx % 2 == 1):
             # two blocks of nc columns each, so that more components than the rank can be requested: the matrix twice (same exact rank),
             # and the matrix next to a constant block (zero after centring: same exact rank, block variance 0)
@@ -141,19 +220,12 @@ def build_cases(ctx, recs):
             for cells, cb in (([r_ + r_ for r_ in e["cells"]], 1 if allconst else 0), ([r_ + [1] * nc for r_ in e["cells"]], 1)):
                 for req in [nc + 2]:
                     npc = min(req, nc)
-                    kind = "zero" if rk == 0 else ("const-block" if cb else ("beyond-rank" if npc > rk else "within-rank"))
-                    add("CPCA", kind, e, req, npc, rk, rk, noise, cblk=cb, widths=(nc, nc), cells=cells)
+                    add("CPCA", pkind(rk, npc, cb), e, req, npc, rk, rk, noise, cblk=cb, widths=(nc, nc), cells=cells)
         if e["kind"] == "resp":
             for req in ([1, nc + 2] if idx % 2 == 0 else [nc]):
                 npc = min(req, nc)
                 kr = e["krank"]                         # exact number of latent variables (Krylov dimension) from TLC
-                if e["ycst"]:
-                    kind = "const-response"
-                elif kr == 0:
-                    kind = "no-covariance"
-                else:
-                    kind = "nlv-beyond-rank" if npc > kr else "nlv-within-rank"
-                add("PLS", kind, e, req, npc, kr, kr, noise, ys=list(e["y"]))
+                add("PLS", lkind(e, kr, npc), e, req, npc, kr, kr, noise, ys=list(e["y"]))
             # two responses: y and its reverse (collinear / constant pairs included)
             y2 = list(reversed(e["y"]))
             c2 = cov.get((json.dumps(e["cells"]), tuple(y2)))
@@ -175,6 +247,14 @@ def build_cases(ctx, recs):
                 for i in range(nr):
                     ys += [e["y"][i], y2[i]]
                 add("PLS", kind, e, nc + 2, npc, rhi, rlo, noise, ys=ys)
+            if idx % 4 == 2:
+                # K8: a response block with a CONSTANT column next to y (zero after centring: the latent variables are those of y alone; TLC
+                # searches the count between min(1, krank) and krank)
+                kr, npc = e["krank"], nc
+                ys = []
+                for i in range(nr):
+                    ys += [e["y"][i], 1]
+                add("PLS", lkind(e, kr, npc), e, nc + 2, npc, kr, min(1, kr), noise, ys=ys, ycc=1)
             if idx % 4 == 0:
                 add("MLRLOO", "rank-deficient" if e["rank0"] < nc or rk < nc else "regular", e, 1, 1, rk, rk, noise, ys=list(e["y"]))
             if nc >= 2 and idx % 4 == 1:
@@ -183,13 +263,231 @@ def build_cases(ctx, recs):
             distinct = len(set(tuple(r_) for r_ in e["cells"]))
             for k in range(2, nr + 1):
                 add("KMEANS", "duplicate-rows" if distinct < k else "regular", e, k, k, rk, rk, noise)
+        # ---- larger shapes (classes K1 / K2): tall, wide, row counts around slice and block boundaries
+        if e["kind"] == "prod":
+            for req in sorted(set([1, max(rk, 1), nc + 2])):
+                npc = min(req, nc)
+                add("PCA", pkind(rk, npc), e, req, npc, rk, rk, noise)
+            if idx % 3 == 0:
+                add("PCA", pkind(rk, nc), e, nc + 2, nc, rk, rk, noise, scaling=1)
+            if nc >= 2:
+                for w in sorted(set([(1, nc - 1), (nc // 2, nc - nc // 2)])):
+                    c0, cb = 0, 0
+                    for wi in w:
+                        if all(e["cc"][c0 + j] == 1 for j in range(wi)):
+                            cb = 1
+                        c0 += wi
+                    npc = min(w)
+                    add("CPCA", pkind(rk, npc, cb), e, npc + 2, npc, rk, rk, noise, cblk=cb, widths=w)
+                if idx % 2 == 0 and nr * (nc + 2) <= 1024:
+                    add("CPCA", pkind(rk, 2, 1), e, 4, 2, rk, rk, noise, cblk=1, widths=(nc, 2), cells=[r_ + [1, 1] for r_ in e["cells"]])
+            if nr >= 3 and idx % 2 == 1:
+                distinct = len(set(tuple(r_) for r_ in e["cells"]))
+                for k in (2, 3):
+                    add("KMEANS", "duplicate-rows" if distinct < k else "regular", e, k, k, rk, rk, noise)
+        if e["kind"] == "prodresp":
+            kr = e["krank"]
+            for req in (1, nc + 2):
+                npc = min(req, nc)
+                add("PLS", lkind(e, kr, npc), e, req, npc, kr, kr, noise, ys=list(e["y"]))
+            ys = []
+            for i in range(nr):
+                ys += [e["y"][i], 1]
+            add("PLS", lkind(e, kr, nc), e, nc + 2, nc, kr, min(1, kr), noise, ys=ys, ycc=1)
+            if idx % 2 == 0:
+                add("MLRLOO", "rank-deficient" if e["rank0"] < nc or rk < nc else "regular", e, 1, 1, rk, rk, noise, ys=list(e["y"]))
+    return cases
+
+
+# ---- cross-cutting input classes (INPUT-CLASSES.md K3..K7) applied to a stratified subset of the base cases.
+# quick: one case per (stratum, variant), the costly variants rotating over the strata; thorough: two (one for processor counts), every variant in
+# every stratum, more processor counts, offset 2^36
+def _variant_list(q, si, site):
+    """variants applied to stratum number si (quick tier: the costly or closely related ones rotate over the strata)"""
+    if not q:
+        V = [dict(nproc=n) for n in ((2, 3, 5, 16, 24) if si % 2 == 0 else (2, 3, 16))]
+        V += [dict(sc=20), dict(sc=-20), dict(offl=20), dict(offl=26), dict(offl=30), dict(den=3), dict(den=10), dict(den=1000), dict(hist=1),
+              dict(yex=20), dict(yex=-20), dict(yoffl=26), dict(yoffl=30), dict(yden=10), dict(sc=-20, offl=26)]
+        if si % 2 == 0:
+            V += [dict(offl=36), dict(nproc=2, offl=26), dict(nproc=3, den=10), dict(nproc=2, hist=1)]
+        else:
+            V += [dict(nproc=16, sc=20), dict(nproc=5, offl=30), dict(nproc=24, hist=1)]
+        return V
+    mt = site != "PLS"                 # LVCalc / PLS reach no multi-thread kernel: fewer processor-count cases there
+    V = []
+    if si % (2 if mt else 4) == 0:
+        V.append(dict(nproc=2))
+    if si % (4 if mt else 8) == 1:
+        V.append(dict(nproc=3))
+    if si % (8 if mt else 16) == 3:
+        V.append(dict(nproc=16))
+    V += [dict(sc=20), dict(sc=-20), dict(offl=(20, 26, 30)[si % 3]), dict(den=(3, 10, 1000)[si % 3]), dict(hist=1),
+          (dict(yex=20), dict(yex=-20), dict(yoffl=26), dict(yden=10))[si % 4]]
+    if site == "PLS":                  # few strata: every response variant in each of them
+        V += [v for v in (dict(yex=20), dict(yex=-20), dict(yoffl=26), dict(yden=10)) if v not in V]
+    V.append((dict(nproc=2, offl=26), dict(nproc=3, den=10), dict(nproc=2, hist=1), dict(nproc=16, sc=20))[(si // 4) % 4] if si % 4 == 2 else None)
+    return [v for v in V if v]
+
+
+def _applicable(c, v):
+    site = c["site"]
+    if site == "NM":
+        return False
+    if site in ("KMEANS", "MLRLOO"):
+        # termination only: processor counts (the `nthreads` argument), magnitude and location of the data
+        if any(k in v for k in ("den", "hist", "yex", "yoffl", "yden")):
+            return False
+        if site == "MLRLOO" and ("sc" in v or "offl" in v):
+            return False
+        return c["src"] != "pert" or set(v) == {"nproc"}
+    plain = c["src"] in ("mat", "resp", "prod", "prodresp")          # ex = 0: plain integers
+    if any(k in v for k in ("sc", "offl", "den", "yex", "yoffl", "yden")) and (not plain or c["scaling"] != 0):
+        return False                  # autoscaling has absolute zero-scale thresholds of its own (property C10): magnitude / location classes run on centred data
+    if any(k in v for k in ("yex", "yoffl", "yden")) and site != "PLS":
+        return False
+    if v.get("offl", 0) > 30 and c["nr"] > 4:
+        return False                  # the variance a centring residue can show grows like n^3 4^offl: beyond 2^30 only few objects keep the "zero" threshold far below any real component
+    if "den" in v:
+        # a non-representable constant loses the EXACT cancellation the quantifier asks for: admitted only next to informative data (explained
+        # variance is relative to the total sum of squares); a matrix / block that is constant as a whole would be judged against its own rounding noise
+        if c["xrank"] < 1 or c["cblk"]:
+            return False
+    return True
+
+
+def _variants(ctx, base):
+    q = ctx.quick
+    per = 1 if q else 2
+    strata = {}
+    for c in base:
+        grp = "prod" if c["src"].startswith("prod") else ("pert" if c["src"] == "pert" else "small")
+        if c["site"] == "PLS":       # LVCalc works on serial kernels only: strata by kind and shape, not by the degeneracy flags of X
+            key = (c["site"], c["kind"], c["scaling"], c["nr"], c["nc"], c["ny"], grp, c["ycc"])
+        else:
+            key = (c["site"], c["kind"], c["scaling"], c["nr"], c["nc"], tuple(c["widths"]), c["ccany"], c["dr"], c["dc"], grp)
+        strata.setdefault(key, []).append(c)
+    out = []
+    for si, key in enumerate(sorted(strata, key=str)):
+        members = strata[key]
+        for vi, v in enumerate(_variant_list(q, si, key[0])):
+            ok = [c for c in members if _applicable(c, v)]
+            if not ok:
+                continue
+            take = 1 if "nproc" in v else per                               # nproc threads per kernel call: one case per stratum
+            if key[0] == "PLS" and key[1] == "const-response" and "yden" in v:
+                take = min(len(ok), 12 if q else 60)        # outside the quantifier (EXTRA-FINDING only): all of the few members, so that the report is stable
+            for k in range(min(take, len(ok))):
+                c = dict(ok[(vi * 7 + k * (3 if take <= 2 else 1)) % len(ok)])
+                c.update(v)
+                c["ex"] = c["ex"] + c["sc"]
+                out.append(c)
+    return out
+
+
+def class_tags(c):
+    """input classes of INPUT-CLASSES.md this case belongs to (measured, per executed case)"""
+    t = []
+    nr, nc, site = c["nr"], c["nc"], c["site"]
+    t.append("K1:tall" if nr > nc else ("K1:square" if nr == nc else "K1:wide"))
+    if nr == nc + 1:
+        t.append("K1:n=p+1")
+    if nr == nc - 1:
+        t.append("K1:n=p-1")
+    if nc == 1:
+        t.append("K1:single-column")
+    if nr == 1:
+        t.append("K1:single-row")
+    if site in NIPALS:
+        if site == "PLS":
+            t.append("K1:ny=%d" % c["ny"])
+        r = c["rank"]
+        t.append("K1:npc=1" if c["npc"] == 1 else ("K1:1<npc<rank" if c["npc"] < r else ("K1:npc=rank" if c["npc"] == r else "K1:npc>rank")))
+    if nr >= 4:
+        if nr % 4 == 0:
+            t.append("K2:rows=4k")
+        elif nr % 4 in (1, 3):
+            t.append("K2:rows=4k+-1")
+    if nr >= 31:
+        t.append("K2:rows=32k" if nr % 32 == 0 else ("K2:rows=32k+-1" if nr % 32 in (1, 31) else "K2:rows>=31"))
+    if c["nproc"] > 1:
+        n = c["nproc"]
+        for dim, name in ((nr, "rows"), (nc, "cols")):
+            if dim < n:
+                t.append("K2:slice-%s<nproc" % name)
+            elif dim % n == 0:
+                t.append("K2:slice-%s=k*nproc" % name)
+            elif dim % n in (1, n - 1):
+                t.append("K2:slice-%s=k*nproc+-1" % name)
+        t.append("K6:nproc%d" % n)
+    if c["offl"]:
+        t.append("K3:offset2^%d" % c["offl"])
+    if c["yoffl"]:
+        t.append("K3:y-offset2^%d" % c["yoffl"])
+    if c["sc"]:
+        t.append("K4:scale2^%d" % (-c["sc"]))
+    if c["yex"]:
+        t.append("K4:y-scale2^%d" % (-c["yex"]))
+    if c["den"] > 1:
+        t.append("K5:cells/%d" % c["den"])
+    if c["yden"] > 1:
+        t.append("K5:y/%d" % c["yden"])
+    if c["hist"]:
+        t.append("K7:history")
+    if c["dr"]:
+        t.append("K8:duplicate-rows")
+    if c["dc"]:
+        t.append("K8:duplicate-columns")
+    if c["ccany"]:
+        t.append("K8:constant-column")
+    if c["cblk"]:
+        t.append("K8:constant-block")
+    if c["ycc"]:
+        t.append("K8:response-constant-column")
+    if c["kind"] == "const-response":
+        t.append("K8:constant-response")
+    if c["kind"] == "zero":
+        t.append("K8:rank0")
+    if c["kind"] in ("beyond-rank", "nlv-beyond-rank"):
+        t.append("K8:npc-beyond-rank")
+    return t
+
+
+def build_cases(ctx, recs):
+    base = _base_cases(ctx, recs)
+    var = _variants(ctx, base)
+    cases = base + var
+    # outside the statement (EXTRA-FINDING only): the score predictor on the training data, for the first case(s) of every (site, kind, variant)
+    seen = {}
+    for i, c in enumerate(cases):
+        c["id"] = i + 1
+        if c["site"] in NIPALS:
+            k = (c["site"], c["kind"], variant_name(c), c["scaling"])
+            seen[k] = seen.get(k, 0) + 1
+            if seen[k] <= (1 if ctx.quick else 4):
+                c["pred"] = 1
     return cases
 
 
 def case_line(c):
-    t = [c["id"], c["site"], c["kind"], c["scaling"], c["npc_req"], c["npc"], c["rank"], c["rlo"], c["noise"], c["cblk"], c["ex"], c["nr"], c["nc"]]
-    t += c["x"] + [c["ny"]] + c["y"] + [len(c["widths"])] + c["widths"]
+    d = dict(DEFAULTS)
+    d.update(c)
+    t = [d["id"], d["site"], d["kind"], d["scaling"], d["npc_req"], d["npc"], d["rank"], d["rlo"], d["noise"], d["cblk"], d["ex"], d["nr"], d["nc"]]
+    t += d["x"] + [d["ny"]] + d["y"] + [len(d["widths"])] + d["widths"]
+    t += [d["nproc"], d["den"], d["sc"], d["offl"], d["yex"], d["yden"], d["yoffl"], d["hist"], d["pred"]]
     return " ".join(str(v) for v in t)
+
+
+def outside_quantifier(c):
+    """cases that are run and modelled but on which a deviation is NOT a verdict (EXTRA-FINDING): a response block that is constant as a whole at a
+    value without a finite binary expansion (0.1): its centred form is pure rounding residue, the exact cancellation the quantifier asks for is gone
+    (the y-analogue of a rank-0 matrix of such values, which is not generated at all)"""
+    return c.get("yden", 1) > 1 and c["kind"] == "const-response"
+
+
+def variant_name(c):
+    v = [k for k in ("nproc", "sc", "offl", "den", "yex", "yoffl", "yden", "hist") if c.get(k, DEFAULTS[k]) != DEFAULTS[k]]
+    names = dict(nproc="nproc>1", sc="scale", offl="offset", den="nonrep", yex="y-scale", yoffl="y-offset", yden="y-nonrep", hist="history")
+    return "+".join(names[k] for k in v)
 
 
 NONTRIVIAL = lambda c: c["kind"] not in ("within-rank", "regular", "nlv-within-rank")
@@ -212,24 +510,94 @@ def _sig(block, ev):
         what, text = "identity", "returned components disagree with the exact rank %s..%s or a ledger bound: %s" % (head.get("rlo"), head.get("rank"), json.dumps(ev))
     else:
         what, text = "identity", "event is not a step of the model: %s" % json.dumps(ev)
-    return "TERM:%s:%s:%s" % (site, what, kind), "%s case %s (%s): %s" % (site, head.get("id"), kind, text)
+    var = []
+    if head.get("nproc", 1) > 1:
+        var.append("nproc>1")
+    if head.get("offl", 0):
+        var.append("offset")
+    if head.get("sc", 0):
+        var.append("scale")
+    if head.get("den", 1) > 1:
+        var.append("nonrep")
+    if head.get("hist", 0):
+        var.append("history")
+    tail = (":" + "+".join(var)) if var else ""
+    return "TERM:%s:%s:%s%s" % (site, what, kind, tail), "%s case %s (%s%s, nproc %s): %s" % (site, head.get("id"), kind, tail, head.get("nproc", 1), text)
+
+
+def _check_pred(ctx, pred_blocks, byid, label):
+    """the score-predictor probes (outside the statement): TLC validates Reset, Pred, Reset, Pred, ... against TraceNipals (action TPred);
+    a rejected block is an EXTRA-FINDING; later blocks of the same (site, kind) would repeat it and are not examined"""
+    todo, okblocks, rounds = list(pred_blocks), [], 0
+    while todo and rounds < 40:
+        ev = [e for b in todo for e in b] + [dict(todo[0][0])]
+        ok, n, r = tlc.validate_trace("TraceNipals", "Trace_Nipals_prop.cfg", ev)
+        ctx.add_tlc(r, "trace_pred_%s_%d" % (label, rounds))
+        rounds += 1
+        if ok:
+            okblocks += todo
+            break
+        if r.violation != "postcondition":
+            raise InfraError("predictor trace: TLC stopped on %s, not on an unmatched line:\n%s" % (r.violation, r.trace_text[:800]))
+        bi = n // 2                   # two lines per block
+        if bi >= len(todo):
+            raise InfraError("predictor trace rejected at its closing Reset")
+        okblocks += todo[:bi]
+        bad = todo[bi]
+        c, p = byid[bad[0]["id"]], bad[1]
+        if p.get("e") == "PredCrash":
+            what = "crash"
+        elif p.get("shape") != 1:
+            what = "shape"
+        elif p.get("nfw", 0) > 0:
+            what = "nan-within-rank"
+        elif p.get("nfb", 0) > 0:
+            what = "nan-beyond-rank"
+        else:
+            what = "identity"
+        ctx.extra("TERM:%sScorePredictor:%s:%s" % (c["site"], what, c["kind"]),
+                  "%sScorePredictor on the training data of case %s (%s, exact rank %s, %s components, nproc %s): %s  [input: %s]"
+                  % (c["site"], c["id"], c["kind"] + (":" + variant_name(c) if variant_name(c) else ""), c["rank"], c["npc"], c["nproc"], json.dumps(p),
+                     json.dumps({k: c[k] for k in ("nr", "nc", "x", "ny", "y", "widths", "scaling", "npc_req")})))
+        todo = [b for b in todo[bi + 1:] if (byid[b[0]["id"]]["site"], byid[b[0]["id"]]["kind"]) != (c["site"], c["kind"])]
+    ctx.steps["predictor_probes_" + label] = dict(blocks=len(pred_blocks), accepted=len(okblocks), tlc_rounds=rounds)
+    return okblocks
+
+
+def _full(c):
+    """a case dict with every field (replay files written before a field existed stay usable)"""
+    d = dict(DEFAULTS, ccany=0, dr=0, dc=0, ycc=0, src="mat", xrank=c.get("rank", 0))
+    d.update(c)
+    return d
 
 
 def run_cases(ctx, cases, budget, child_timeout, maxdiv, label):
-    lib = build.build_lib("san")
-    exe = build.build_harness("c18", ["c18_drv.c"], lib)
+    cases = [_full(c) for c in cases]
+    # one processor: ASan/UBSan build.  nproc > 1: the MT kernels create nproc threads per matrix*vector product, several per NIPALS pass; under
+    # ASan a thread costs ~1 ms, so these cases run on the plain build of the same tree (same hooks)
+    # (forking a child of an ASan process costs ~4 ms, of a plain one ~1 ms: of the plain inputs at one processor every second case (thorough: every
+    # fourth) runs under the sanitizers, every variant, counter-bounded routine and replay does)
+    def sanitized(c):
+        return c["nproc"] == 1 and (len(cases) < 100 or variant_name(c) or c["site"] not in NIPALS or c["id"] % (2 if ctx.quick else 4) == 0)
+    groups = [("san", [c for c in cases if sanitized(c)]), ("plain", [c for c in cases if not sanitized(c)])]
     rd = tlc.rundir()
     byid = {c["id"]: c for c in cases}
     try:
-        nproc = max(1, min(PAR, len(cases) // 50 + 1))
-        parts = [cases[i::nproc] for i in range(nproc)]
         jobs = []
-        for i, p in enumerate(parts):
-            cf = os.path.join(rd, "cases%d.txt" % i)
-            with open(cf, "w") as f:
-                f.write("\n".join(case_line(c) for c in p) + "\n")
-            jobs.append([cf, os.path.join(rd, "t%d.ndjson" % i), budget, child_timeout, maxdiv])
-        res = hrun.run_many(exe, jobs, timeout=3000, workers=PAR)
+        for cfgname, part in groups:
+            if not part:
+                continue
+            lib = build.build_lib(cfgname)
+            exe = build.build_harness("c18", ["c18_drv.c"], lib)
+            nproc = max(1, min(PAR, len(part) // 50 + 1))
+            for i in range(nproc):
+                p = part[i::nproc]
+                cf = os.path.join(rd, "cases-%s-%d.txt" % (cfgname, i))
+                with open(cf, "w") as f:
+                    f.write("\n".join(case_line(c) for c in p) + "\n")
+                jobs.append((exe, [cf, os.path.join(rd, "t-%s-%d.ndjson" % (cfgname, i)), budget, child_timeout, maxdiv]))
+        with ThreadPoolExecutor(PAR) as ex:
+            res = list(ex.map(lambda j: hrun.run(j[0], j[1], timeout=3000), jobs))
         events, skipped, diverged = [], 0, 0
         for j, h in zip(jobs, res):
             if h.timed_out or h.rc != 0 or "SUMMARY" not in h.out:
@@ -237,20 +605,39 @@ def run_cases(ctx, cases, budget, child_timeout, maxdiv, label):
             kv = dict(t.split("=") for t in h.out.split("SUMMARY", 1)[1].split())
             skipped += int(kv["skipped"])
             diverged += int(kv["diverged"])
-            events += hrun.read_ndjson(j[1])
+            events += hrun.read_ndjson(j[1][1])
         blocks = tlc.split_blocks(events)
         if not blocks:
             raise InfraError("c18 harness produced no events")
+        # everything after a PredStart line is outside the statement of the property: cut it off the block and judge it in a trace of its own
+        pred_blocks = []
+        for b in blocks:
+            idx = next((i for i, e in enumerate(b) if e.get("e") == "PredStart"), None)
+            if idx is not None:
+                rest = b[idx + 1:]
+                pe = [e for e in rest if e.get("e") == "Pred"]
+                pred_blocks.append([b[0], pe[0] if pe else dict(e="PredCrash", site=b[0]["site"], after=[e.get("e") for e in rest])])
+                del b[idx:]
+        if any(c["pred"] for c in cases if c["site"] in NIPALS and c["id"] in {b[0]["id"] for b in blocks}) and not pred_blocks and not diverged:
+            raise InfraError("score-predictor probes were scheduled but no PredStart line was recorded")
         need_iter = any(c["site"] in ("PCA", "PLS", "CPCA") and c["rank"] > 0 and c["rlo"] > 0 for c in cases)
         if need_iter and not any(e.get("e") == "Iter" for e in events):
             raise InfraError("no Iter events: hook H4 is not firing (hooks removed or guard off)")
+        km = [e for e in events if e.get("e") == "Returned" and e.get("site") == "KMEANS"]
+        if km and not any(e.get("n", 0) > 0 for e in km):
+            raise InfraError("k-means returned but hook H6 (VERIF_STATE in KMeans) never reported an iteration")
+        nwarm = sum(1 for c in cases if c.get("hist") and c["site"] in NIPALS)
+        if nwarm and not any(e.get("e") == "Warm" and e.get("passes", 0) > 0 for e in events):
+            raise InfraError("in-process history cases were scheduled but no Warm event with NIPALS passes was recorded")
         ctx.note("%s: %d cases run in child processes (%d skipped after %d diverging cases per (site, kind)), %d events" % (label, len(blocks), skipped, maxdiv, len(events)))
         unguarded = set()
         for b in blocks:
             c = byid.get(b[0].get("id"))
             if c is None:
                 raise InfraError("unknown case id in trace: %s" % b[0])
-            ctx.case((c["site"], c["rank"], c["npc"] - c["rank"], c["kind"], c["nr"], c["nc"], c["scaling"]), NONTRIVIAL(c))
+            ctx.case((c["site"], c["rank"], c["npc"] - c["rank"], c["kind"], c["nr"], c["nc"], c["scaling"], variant_name(c), c.get("nproc", 1)), NONTRIVIAL(c))
+            for tag in class_tags(c):
+                ctx.cls(tag)
             for e in b:
                 if e.get("e") == "Iter" and (e["a"] != "Fin" or e["b"] != "Fin"):
                     unguarded.add(e["site"])
@@ -262,9 +649,15 @@ def run_cases(ctx, cases, budget, child_timeout, maxdiv, label):
             ctx.note("variant implemented by the code: UNGUARDED at %s (passes on null / non-finite vectors were recorded) - the model predicts the lasso there" % sorted(unguarded))
         ctx.steps["variant_" + label] = dict(unguarded_sites=sorted(unguarded), diverged_cases=diverged, skipped_cases=skipped)
 
+        rejected_ids = set()
+
         def on_reject(ev, idx, block):
             sig, what = _sig(block, ev)
             c = byid.get(block[0].get("id")) if block and block[0].get("e") == "Reset" else None
+            rejected_ids.add(block[0].get("id"))
+            if c is not None and outside_quantifier(c):
+                ctx.extra(sig, what + "  [input: %s]" % json.dumps({k: c[k] for k in ("nr", "nc", "x", "ny", "y", "yden", "npc_req")}))
+                return
             ctx.violation(sig, what, dict(kind="case", case=c, events=block[:14]))
 
         def is_suspect(b):
@@ -285,47 +678,190 @@ def run_cases(ctx, cases, budget, child_timeout, maxdiv, label):
                 raise InfraError("a diverging / non-finite execution was accepted by TraceNipals (%d rejected of %d)" % (n, len(firsts)))
         CH = 4000
         chunks = [[e for b in clean[i:i + CH] for e in b] for i in range(0, len(clean), CH)]
-        with ThreadPoolExecutor(max(1, min(4, PAR // 2))) as ex:
+        with ThreadPoolExecutor(max(1, min(4 if ctx.quick else 6, PAR))) as ex:
+            fp = ex.submit(_check_pred, ctx, pred_blocks, byid, label)
             list(ex.map(lambda t: trace.check_trace(ctx, "TraceNipals", "Trace_Nipals.cfg", "Trace_Nipals_prop.cfg", t[1], on_reject, drop="block", max_rounds=16,
                                                      label="trace_nipals_%s_%d" % (label, t[0]), timeout=1500, xmx="4g"), enumerate(chunks)))
+            _LAST["pred_ok"] = fp.result()
         ctx.traces(len(clean) + len(firsts))
-        return blocks, clean
+        return blocks, [b for b in clean if b[0].get("id") not in rejected_ids]       # clean = accepted by TLC
     finally:
         shutil.rmtree(rd, ignore_errors=True)
 
 
-def run(ctx):
-    ctx.assumptions += [
-        "TLC explores Nipals.tla exhaustively within rank 0..3 (4), components 1..5 (6), contraction budget 3 (5) only; the class transfer function of a pass was transcribed from pca.c / pls.c / cpca.c by hand",
-        "hook H4 is called once per pass of the three while(1) loops with (t't | u'u, normaliser, convergence value); components returned without any pass are reported as `Null` by the harness",
-        "non-termination of the real code is decided by an iteration budget (1e5 passes quick / 1e6 thorough) or, for routines without a hook, a 20 s wall-clock watchdog per child",
-        "a returned component counts as zero-variance when its explained variance is <= 1e-9 percent (rounding noise left by deflation is ~1e-28); ledger residuals are computed by the harness in double precision, TLC compares them with TolAlg = 1e-8",
-        "PLS: the exact number of latent variables (Krylov dimension of X_c'X_c, X_c'y_c) is computed by TLC for one response; for two responses only the first latent variable is claimed; past that count a returned component must be finite, nothing else (it may be built on rounding noise while X has rank left)",
-        "ASan/UBSan build; every fit in its own forked child with one processor forced (hook H2)",
-    ]
-    model_check(ctx)
-    recs = generate(ctx)
-    cases = build_cases(ctx, recs)
-    ctx.note("%d cases (PCA %d, PLS %d, CPCA %d, MLR-LOO %d, k-means %d, Nelder-Mead %d)" % ((len(cases),) + tuple(sum(1 for c in cases if c["site"] == s)
-             for s in ("PCA", "PLS", "CPCA", "MLRLOO", "KMEANS", "NM"))))
-    budget = 100000 if ctx.quick else 1000000
-    blocks, clean = run_cases(ctx, cases, budget, 8 if ctx.quick else 20, 1 if ctx.quick else 3, "main")
-    ctx.cov["rule"] = ("inputs enumerated by TLC (NipalsGen: matrices <= 3x3 over {-1,0,1}%s, dyadic perturbations 2^-3, all responses in {0,1}^rows) crossed with component "
-                       "requests 1..cols and cols+2 (cols+1 is clamped to the same fit) / block splits / cluster counts; a case = one fit in a child process keyed by (site, exact rank, npc - rank, kind, shape, scaling); "
-                       "non-trivial = more components than rank, rank 0, constant response, no covariance, constant block, duplicate rows or rank-deficient design"
-                       % (", shapes with > 4 cells sampled deterministically" if ctx.quick else ", complete"))
-    ctx.cov["exhaustive"] = not ctx.quick
-    if not ctx.quick and clean:
-        # binding self-test: delete the last Done -> the trace must be rejected
-        sel = [b for b in clean if any(e.get("e") == "Done" for e in b)][:50]
+REQUIRED_MT = {"PCA": ("K8:constant-column", "K8:duplicate-rows", "K8:rank0", "K8:npc-beyond-rank"),
+               "CPCA": ("K8:constant-block", "K8:constant-column", "K8:duplicate-rows", "K8:rank0", "K8:npc-beyond-rank"),
+               "PLS": ("K8:constant-column", "K8:duplicate-rows", "K8:constant-response", "K8:npc-beyond-rank")}
 
-        def corrupt(ev):
-            for i in range(len(ev) - 1, -1, -1):
-                if ev[i].get("e") == "Done":
-                    del ev[i]
+
+def _mt_coverage(ctx, cases):
+    """every degenerate class must have been scheduled under every forced processor count > 1 (vacuity of the K6 extension)"""
+    cnt = {}
+    for c in cases:
+        if c["nproc"] > 1 and c["site"] in NIPALS:
+            for t in class_tags(c):
+                if t.startswith("K8:"):
+                    k = "%s nproc=%d %s" % (c["site"], c["nproc"], t)
+                    cnt[k] = cnt.get(k, 0) + 1
+    ctx.steps["cases_at_nproc_gt1_by_degenerate_class"] = dict(sorted(cnt.items()))
+    missing = ["%s nproc=%d %s" % (s, n, t) for s, tags in REQUIRED_MT.items() for n in (2, 3, 16) for t in tags if not cnt.get("%s nproc=%d %s" % (s, n, t))]
+    if missing:
+        raise InfraError("degenerate classes never scheduled at nproc > 1: %s" % missing)
+
+
+def _binding(ctx, clean, byid):
+    """corrupt one recorded field per new event kind / field: TLC must reject"""
+    def blk(pred):
+        for b in clean:
+            if pred(b, byid[b[0]["id"]]):
+                return b
+        return None
+    tests = []
+    tail = lambda b: [dict(b[0])]          # a trailing Reset: the block before it must have reached phase "done"
+
+    def t_done(ev):
+        for i in range(len(ev) - 1, -1, -1):
+            if ev[i].get("e") == "Done":
+                del ev[i]
+                return True
+        return False
+    sel = [b for b in clean if any(e.get("e") == "Done" for e in b)][:50]
+    if sel:
+        tests.append(("binding_done", "Trace_Nipals_prop.cfg", [e for b in sel for e in b] + tail(sel[0]), t_done))
+
+    def t_warm(ev):
+        for i, e in enumerate(ev):
+            if e.get("e") == "Warm":
+                del ev[i]
+                return True
+        return False
+    b = blk(lambda b, c: c["hist"] == 1 and any(e.get("e") == "Warm" for e in b))
+    if b:
+        tests.append(("binding_warm", "Trace_Nipals_prop.cfg", b + tail(b), t_warm))
+
+    def t_vx(ev):
+        for e in ev:
+            if e.get("e") == "Done" and e["vx"]:
+                e["vx"][0] = 0
+                return True
+        return False
+    b = blk(lambda b, c: c["site"] == "PCA" and c["rank"] >= 1 and b[-1].get("e") == "Done")
+    if b:
+        tests.append(("binding_vx", "Trace_Nipals_prop.cfg", b + tail(b), t_vx))
+
+    def t_nf(ev):
+        for e in ev:
+            if e.get("e") == "Done" and e["nf"]:
+                e["nf"][-1] = 1
+                return True
+        return False
+    if b:
+        tests.append(("binding_nf", "Trace_Nipals_prop.cfg", b + tail(b), t_nf))
+
+    def t_ret(limit):
+        def f(ev):
+            for e in ev:
+                if e.get("e") == "Returned":
+                    e["n"] = limit(e)
                     return True
             return False
-        trace.binding_selftest(ctx, "TraceNipals", "Trace_Nipals_prop.cfg", [e for b in sel for e in b] + [dict(sel[0][0])] if sel else [], corrupt, "binding_done")
+        return f
+    b = blk(lambda b, c: c["site"] == "KMEANS")
+    if b:
+        tests.append(("binding_kmeans_cap", "Trace_Nipals_prop.cfg", b + tail(b), t_ret(lambda e: 101)))
+    b = blk(lambda b, c: c["site"] == "NM")
+    if b:
+        tests.append(("binding_nm_cap", "Trace_Nipals_prop.cfg", b + tail(b), t_ret(lambda e: (e["nc"] + 1) + e["iter"] * (e["nc"] + 3) + 1)))
+
+    # the tolerance of the reconstruction residual is a function of the LOGGED offset: pretend there was none
+    def t_off(ev):
+        ev[0]["offl"] = 0
+        return True
+    b = blk(lambda b, c: c["site"] == "PCA" and c["offl"] >= 26 and b[-1].get("e") == "Done" and b[-1].get("recon", -1) > 10000)
+    if b:
+        tests.append(("binding_offset_tolerance", "Trace_Nipals_prop.cfg", b + tail(b), t_off))
+    else:
+        ctx.note("binding_offset_tolerance: no offset case with a reconstruction residual above TolAlg in this run (nothing to corrupt)")
+
+    # the uncorrupted selections must be behaviours of the spec (one run for all of them); with violations around, a selected block
+    # may be one of the executions the check did not get to examine: then the self-tests say nothing and are skipped
+    pb = blk(lambda b, c: c["site"] == "CPCA" and c["cblk"] == 1 and c["nproc"] > 1 and c["rank"] >= 1 and c["hist"] == 0 and any(e.get("e") == "Iter" for e in b))
+    allsel = [e for t in tests for e in t[2][:-1]] + (pb if pb else [])        # every selection without its trailing Reset ...
+    allsel = allsel + [dict(allsel[0])] if allsel else []                       # ... and one at the very end
+    ok0, _, r0 = tlc.validate_trace("TraceNipals", "Trace_Nipals.cfg", allsel)
+    ctx.add_tlc(r0, "binding_selection")
+    if not ok0:
+        if ctx.violations:
+            ctx.note("binding self-tests skipped: the selected executions are not all accepted in this run (see the violations)")
+            return
+        raise InfraError("binding self-test selection is not accepted by TraceNipals although the run has no violation")
+
+    def t_pred(ev):
+        for e in ev:
+            if e.get("e") == "Pred":
+                e["nfb"] = e.get("nfb", 0) + 1
+                return True
+        return False
+    pok = [b for b in _LAST.get("pred_ok", []) if b[1].get("e") == "Pred"]
+    if pok:
+        tests.append(("binding_pred", "Trace_Nipals_prop.cfg", pok[0] + tail(pok[0]), t_pred))
+
+    def one(t):
+        trace.binding_selftest(ctx, "TraceNipals", t[1], t[2], t[3], t[0])
+        return t[0]
+    # the processor count of the Reset line is bound to the kernel layer of the model: under FilterMT = FALSE (a model constant, not the code) a clean
+    # CPCA constant-block execution recorded at nproc > 1 is NOT a behaviour of the model, the same lines with nproc rewritten to 1 are
+    b = pb
+    if b is None:
+        if ctx.violations:
+            ctx.note("binding_nproc skipped: no ACCEPTED CPCA constant-block execution at nproc > 1 in this run (see the violations)")
+            return
+        raise InfraError("no clean CPCA constant-block execution at nproc > 1 to bind the processor count with")
+    b1 = [dict(e) for e in b]
+    b1[0]["nproc"] = 1
+    with ThreadPoolExecutor(max(1, min(4, PAR))) as ex:
+        f2 = ex.submit(tlc.validate_trace, "TraceNipals", "Trace_Nipals_nofilter.cfg", b + tail(b))
+        f1 = ex.submit(tlc.validate_trace, "TraceNipals", "Trace_Nipals_nofilter.cfg", b1 + [dict(b1[0])])
+        done = list(ex.map(one, tests))
+        (ok2, n2, _), (ok1, n1, _) = f2.result(), f1.result()
+    if ok2 or not ok1:
+        raise InfraError("binding lost: the recorded processor count does not reach the kernel layer of the model (nproc > 1 accepted: %s, nproc = 1 accepted: %s)" % (ok2, ok1))
+    ctx.steps["binding_nproc"] = dict(rejected_at=n2, ok=True)
+    ctx.note("binding self-tests passed: %s, binding_nproc" % ", ".join(done))
+
+
+def run(ctx):
+    ctx.assumptions += [
+        "TLC explores Nipals.tla / NipalsMT.tla exhaustively within rank 0..3 (4), components 1..5 (6), contraction budget 3 (5), processor counts {1,2,3,16} ({1,2,3,5,16,24}) only; the class transfer function of a pass was transcribed from pca.c / pls.c / cpca.c by hand",
+        "hook H4 is called once per pass of the three while(1) loops with (t't | u'u, normaliser, convergence value); components returned without any pass are reported as `Null` by the harness; hook H6 reports every Lloyd iteration of KMeans",
+        "non-termination of the real code is decided by an iteration budget (1e5 passes quick / 1e6 thorough) or, for routines without a hook, a wall-clock watchdog per child (20 s quick / 40 s thorough, four times that at nproc > 1; a fit of these sizes takes milliseconds)",
+        "the harness logs the explained variance of every returned component (1e-12 percent units) and a non-finite flag; TLC classifies (VarZeroQ = 1e-9 percent plus the variance the centring residue of offset data can show) and compares the harness's double-precision ledger residuals with TolAlg = 1e-8 (plus twice the centring residue for offset data)",
+        "PLS: the exact number of latent variables (Krylov dimension of X_c'X_c, X_c'y_c) is computed by TLC for one response (and for a response block [y, constant]); for two varying responses only the first latent variable is claimed; past that count a returned component must be finite, nothing else (it may be built on rounding noise while X has rank left)",
+        "one processor: ASan/UBSan build for every variant, every counter-bounded routine and every second (thorough: fourth) plain NIPALS case, plain build for the rest; nproc > 1: plain build of the same tree (a thread costs ~1 ms under ASan and the MT kernels create nproc of them per product); every fit in its own forked child with the processor count forced through hook H2",
+        "exact ranks of the larger shapes: rank of the row differences M[i] - M[1] (same row space as the centred matrix), eliminated through the transpose when tall; cross-checked against the centred-matrix route on every small case",
+    ]
+    with ThreadPoolExecutor(2) as ex:          # the model runs and the generator are independent TLC jobs
+        f_mc, f_gen = ex.submit(model_check, ctx), ex.submit(generate, ctx)
+        recs = f_gen.result()
+        f_mc.result()
+    cases = build_cases(ctx, recs)
+    ctx.note("%d cases (PCA %d, PLS %d, CPCA %d, MLR-LOO %d, k-means %d, Nelder-Mead %d); %d of them variants (nproc > 1: %d, offset: %d, scale: %d, non-representable: %d, history: %d)"
+             % ((len(cases),) + tuple(sum(1 for c in cases if c["site"] == s) for s in ("PCA", "PLS", "CPCA", "MLRLOO", "KMEANS", "NM"))
+                + (sum(1 for c in cases if variant_name(c)), sum(1 for c in cases if c["nproc"] > 1), sum(1 for c in cases if c["offl"] or c["yoffl"]),
+                   sum(1 for c in cases if c["sc"] or c["yex"]), sum(1 for c in cases if c["den"] > 1 or c["yden"] > 1), sum(1 for c in cases if c["hist"]))))
+    _mt_coverage(ctx, cases)
+    budget = 100000 if ctx.quick else 1000000
+    blocks, clean = run_cases(ctx, cases, budget, 20 if ctx.quick else 40, 1 if ctx.quick else 3, "main")
+    ctx.cov["rule"] = ("inputs enumerated by TLC (NipalsGen: matrices <= 3x3 over {-1,0,1}%s, dyadic perturbations 2^-3, all responses in {0,1}^rows, response blocks [y, constant]; "
+                       "low-rank integer products A B of %d larger shapes up to %s with exact rank from TLC) crossed with component requests 1..cols and cols+2 (cols+1 is clamped to the same fit) / "
+                       "block splits / cluster counts; plus, per stratum (site, kind, shape, degeneracy flags), variants of the same input: forced processor counts %s, whole-input scale 2^+-20, "
+                       "column offsets 2^20..2^%d, cells / responses divided by 3, 10, 1000, other fits first in the same process; a case = one fit in a child process keyed by "
+                       "(site, exact rank, npc - rank, kind, shape, scaling, variant, nproc); non-trivial = more components than rank, rank 0, constant response, no covariance, constant block, "
+                       "duplicate rows or rank-deficient design"
+                       % ((", shapes with > 4 cells sampled deterministically", 20, "33x2 / 4x8", "2, 3, 16", 30) if ctx.quick else (", complete", 38, "65x4 / 8x8", "2, 3, 5, 16, 24", 36)))
+    ctx.cov["exhaustive"] = not ctx.quick
+    if clean:
+        _binding(ctx, clean, {c["id"]: _full(c) for c in cases})
 
 
 def replay(ctx, body):
